@@ -243,6 +243,12 @@ def run(tier="quick"):
     n, nund, samples = run_cap(chk, prog, fns, rule="B1", noreturn=NORETURN, strict=True,
                                cap_factory=lambda p: UrlCap(p, noreturn=NORETURN),
                                kinds={"lower", "upper", "null", "count", "cursor", "freed", "uninit", "slice"})
+    # the constructors and the other callers of parse: definite findings only (their entry states are C01's; what they add in front
+    # of parse - measuring or trimming the source text - must stay inside that text)
+    ctor_fns = [f for f in u.functions.values() if f.cfg is not None and f.name in reach and "_show" not in f.name]
+    n_c, nund_c, samples_c = run_cap(chk, prog, ctor_fns, rule="B1", noreturn=NORETURN, cap_factory=lambda p: UrlCap(p, noreturn=NORETURN),
+                                     kinds={"lower", "upper", "null", "count", "cursor", "freed", "slice"})
+    nund += nund_c
     check_unparse(chk, prog)
     chk.rule("N4", "the constructors whose result is handed to a protocol/service lookup return objects that carry text")
     check_lookup_names(chk, prog)
